@@ -235,3 +235,170 @@ by have [->|] := eqVneq x 0; rewrite ?(negPf g00) ?orbF ?addn0.
 Qed.
 
 End FactorSpec.
+
+(* ====================================================================== Part B: the interval count *)
+Section CountFull.
+Variable R : rcfType.
+Local Notation PR := (PR R).
+Local Notation QR := (QR R).
+Local Notation ZtoR := (ZtoR R).
+
+Lemma lp_sturm_sequence_cons2 (f : seq Z) :
+  exists l, lp_sturm_sequence f = ppp f :: ppp (pderiv (ppp f)) :: l.
+Proof.
+rewrite /lp_sturm_sequence.
+by have [l ->] := lp_loop_cons (length (ppp f)) (ppp f) (ppp (pderiv (ppp f))); exists l.
+Qed.
+
+(* a real root of the last member of libpoly's sequence is a MULTIPLE root of f *)
+Lemma lp_last_root2 (f : seq Z) (x : R) : (1 < size (PR f))%N ->
+  root (PR (last [::] (lp_sturm_sequence f))) x -> root (PR f) x /\ root (PR f)^`() x.
+Proof.
+move=> sf lx; have [G0 rE st lk] := lp_sturm_sequence_chain sf.
+have f0 : Poly f != 0 by rewrite -(PR_neq0 R) -size_poly_gt0 (ltn_trans _ sf).
+have [c c0 fE] := PR_ppp_scale R f0.
+have dv := Rlinks_last_dvd lk.
+have [l lE] := lp_sturm_sequence_cons2 f.
+move: lx dv st; rewrite -[PR (last _ _)](last_map PR) PR_nil lE => lx dv st.
+have [_ [c1 c10 E1]] := pposs_hd2 G0 st.
+move: lx dv => /= lx /and3P[d0 d1 _].
+have r0 := dvdp_root_tr d0 lx; have := dvdp_root_tr d1 lx; rewrite E1 rootZ ?gt_eqF // => r1.
+by rewrite fE derivZ !rootZ.
+Qed.
+
+Lemma simple_noderiv (G : {poly R}) (x : R) : (1 < size G)%N -> (\mu_x G <= 1)%N -> root G x -> ~~ root G^`() x.
+Proof.
+move=> sG mu1 rx.
+have G'0 : G^`() != 0 by rewrite -size_poly_gt0 size_deriv; move: (size G) sG => n; lia.
+by rewrite -mu_gt0 // mu_deriv //; move: (\mu_x G) mu1 => n; lia.
+Qed.
+
+Lemma rootsR_const (G : {poly R}) : G != 0 -> (size G <= 1)%N -> rootsR G = [::].
+Proof.
+move=> G0 sz; case E: (rootsR G) => [|x s] //.
+have : x \in rootsR G by rewrite E inE eqxx.
+by rewrite in_rootsR // => rx; have := root_size_gt1 G0 rx; rewrite ltnNge sz.
+Qed.
+
+(* a non-zero constant "factor": libpoly's sequence is [1; 0], every count is 0 *)
+Lemma lp_sturm_sequence_const (g : seq Z) : PR g != 0 -> (size (PR g) <= 1)%N ->
+  lp_sturm_sequence g = [:: ppp g; [::]] /\ forall a b : Z, (0 < b)%R -> psgn_at_rat (ppp g) a b = 1%ZZ.
+Proof.
+move=> g0 sz; have [s00 ls0 ps0] := PR_ppp g0.
+have szs0 : size (PR (ppp g)) = 1%N.
+  apply/eqP; rewrite eqn_leq size_poly_gt0 s00 andbT (ppos_size ps0).
+  by case: ifP => _ //; rewrite size_opp.
+have d0 : ppp (pderiv (ppp g)) = [::].
+  apply: ppp_zero; apply/pis_zeroP; rewrite -(PR_eq0 R) PR_pderiv -size_poly_eq0 size_deriv szs0.
+  by [].
+split.
+  rewrite /lp_sturm_sequence d0; case: (length (ppp g)) => [|n] //.
+move=> a b b0; apply: (@ZtoR_inj R).
+have -> : ZtoR 1%ZZ = 1 by exact: (rmorph1 (ZtoR_rmorphism R)).
+rewrite -sgr_horner_rat //.
+have /size_poly1P [k k0 kE] : size (PR (ppp g)) == 1%N by rewrite szs0.
+by move: ls0; rewrite kE lead_coefC hornerC => /gtr0_sg.
+Qed.
+
+Lemma lp_count_const (g : seq Z) (J : ri_itv) : PR g != 0 -> (size (PR g) <= 1)%N ->
+  (0 < qlo_d J)%R -> (0 < qhi_d J)%R -> riq_lt (qlo_n J) (qlo_d J) (qhi_n J) (qhi_d J) ->
+  lp_count_roots_gen true (lp_sturm_sequence g) (Some J) = 0%ZZ.
+Proof.
+move=> g0 sz l0 h0 lh; have [-> sg] := lp_sturm_sequence_const g0 sz.
+rewrite /lp_count_roots_gen /lp_sign_changes /= !sg //=.
+have -> : Z.eqb (Z.mul (qlo_n J) (qhi_d J)) (Z.mul (qhi_n J) (qlo_d J)) = false.
+  by move: lh; rewrite /riq_lt => /Z.ltb_lt ?; apply/Z.eqb_neq; lia.
+by rewrite /= !andbF.
+Qed.
+
+Lemma leq_sum_mem (T : eqType) (F : T -> nat) (s : seq T) (t : T) : t \in s -> (F t <= \sum_(i <- s) F i)%N.
+Proof.
+elim: s => [|a s IH] //; rewrite inE big_cons => /orP[/eqP ->|/IH h]; first exact: leq_addr.
+exact: leq_trans h (leq_addl _ _).
+Qed.
+
+(* the real roots of F are split by the factors *)
+Lemma sum_count_partition (fs : seq (seq Z * nat)) (F : {poly R}) (Pd : pred R) : F != 0 ->
+  (forall gk, gk \in fs -> PR gk.1 != 0) ->
+  (forall x : R, (\sum_(gk <- fs) \mu_x (PR gk.1) = root F x :> nat)%N) ->
+  (\sum_(gk <- fs) count Pd (rootsR (PR gk.1)) = count Pd (rootsR F))%N.
+Proof.
+move=> F0 nz musum; set s := rootsR F.
+have us : uniq s by apply: (@sorted_uniq _ <%R) (sorted_roots _ _ _); [exact: lt_trans | exact: ltxx].
+have mule gk x : gk \in fs -> (\mu_x (PR gk.1) <= root F x)%N.
+  by move=> gin; rewrite -musum; exact: (leq_sum_mem (fun gk => \mu_x (PR gk.1)) gin).
+have mu1 gk x : gk \in fs -> (root (PR gk.1) x : nat) = \mu_x (PR gk.1).
+  move=> gin; apply: root_mu1; first exact: nz.
+  by apply: leq_trans (mule gk x gin) _; case: (root F x).
+have rsum x : (\sum_(gk <- fs) (root (PR gk.1) x : nat) = root F x :> nat)%N.
+  by rewrite -musum [LHS]big_seq [RHS]big_seq; apply: eq_bigr => gk gin; exact: mu1.
+have step1 gk : gk \in fs -> count Pd (rootsR (PR gk.1)) = count (predI Pd (root (PR gk.1))) s.
+  move=> gin; rewrite -count_filter; apply/permP.
+  apply: uniq_perm; first by apply: (@sorted_uniq _ <%R) (sorted_roots _ _ _); [exact: lt_trans | exact: ltxx].
+    exact: filter_uniq.
+  move=> x; rewrite mem_filter !in_rootsR ?nz //.
+  case rx: (root (PR gk.1) x) => //=; symmetry.
+  by have := mule gk x gin; rewrite -mu1 // rx; case: (root F x).
+rewrite big_seq (eq_bigr _ step1) -big_seq.
+have : forall x, x \in s -> root F x by move=> x; rewrite in_rootsR.
+elim: s {us step1} => [|x s IH] sub.
+  by rewrite big1.
+rewrite /= -IH; last by move=> y yin; apply: sub; rewrite inE yin orbT.
+rewrite big_split /=; congr (_ + _)%N.
+have rx : root F x by apply: sub; rewrite inE eqxx.
+case: (Pd x) => /=; first by rewrite rsum rx.
+by rewrite big1.
+Qed.
+
+Lemma fold_left_count (J : ri_itv) (fs : seq (seq Z * nat)) (cnt : seq Z * nat -> nat) (a : Z) :
+  (forall gk, gk \in fs ->
+     lp_count_roots_gen true (lp_sturm_sequence gk.1) (Some J) = Z.of_nat (cnt gk)) ->
+  List.fold_left (fun acc sq => Z.add acc (lp_count_roots_gen true sq (Some J)))
+    (map (fun fk : seq Z * nat => lp_sturm_sequence fk.1) fs) a
+  = Z.add a (Z.of_nat (\sum_(gk <- fs) cnt gk)).
+Proof.
+move: (lp_count_roots_gen true) (lp_sturm_sequence) => cntf sqf.
+elim: fs a => [|gk fs IH] a H /=; first by rewrite big_nil; lia.
+rewrite IH; last by move=> t tin; apply: H; rewrite inE tin orbT.
+by rewrite big_cons H ?inE ?eqxx //; lia.
+Qed.
+
+(* the per-factor count of the model *)
+Lemma lp_factor_count (g : seq Z) (J : ri_itv) : PR g != 0 -> (forall x : R, (\mu_x (PR g) <= 1)%N) ->
+  (0 < qlo_d J)%R -> (0 < qhi_d J)%R -> riq_lt (qlo_n J) (qlo_d J) (qhi_n J) (qhi_d J) ->
+  lp_count_roots_gen true (lp_sturm_sequence g) (Some J) = Z.of_nat (count (@in_qitv R J) (rootsR (PR g))).
+Proof.
+move=> g0 simple l0 h0 lh.
+case: (leqP (size (PR g)) 1) => [sz|sz].
+  by rewrite lp_count_const // rootsR_const.
+have lh' : QR (qlo_n J) (qlo_d J) < QR (qhi_n J) (qhi_d J) by rewrite QR_lt.
+apply: lp_count_roots_sturm => //.
+  rewrite -(root_rat R) //; apply/negP => /(lp_last_root2 sz) [r0 r1].
+  by move: r1; apply/negP; exact: simple_noderiv.
+rewrite -(root_rat R) //; apply/negP => /(lp_last_root2 sz) [r0 r1].
+by move: r1; apply/negP; exact: simple_noderiv.
+Qed.
+
+(* THE count theorem: libpoly's repaired interval count (faithful model) is exact *)
+Theorem lp_roots_count_full (f : seq Z) (J : ri_itv) : pis_zero f = false ->
+  (0 < qlo_d J)%R -> (0 < qhi_d J)%R -> riq_lt (qlo_n J) (qlo_d J) (qhi_n J) (qhi_d J) ->
+  lp_roots_count f (Some J) = Z.of_nat (size [seq x <- rootsR (PR f) | in_qitv J x]).
+Proof.
+move=> fz l0 h0 lh; have f0 : PR f != 0 by rewrite PR_eq0 fz.
+rewrite size_filter /lp_roots_count /lp_roots_count_gen.
+case: (boolP (Nat.leb _ _)) => [/Nat.leb_le le1|_].
+  by rewrite rootsR_const // size_PR; apply/ssrnat.leP.
+have [fs1 fs2] := lp_sqfree_factors_spec f0.
+rewrite /lp_roots_count_seqs /lp_factor_seqs.
+have -> : List.map snd (List.map (fun fk : seq Z * nat => (fst fk, lp_sturm_sequence (fst fk))) (lp_sqfree_factors f))
+          = map (fun fk : seq Z * nat => lp_sturm_sequence fk.1) (lp_sqfree_factors f).
+  by rewrite List.map_map.
+rewrite (@fold_left_count J _ (fun gk => count (@in_qitv R J) (rootsR (PR gk.1)))).
+  rewrite Z.add_0_l; congr Z.of_nat; apply: sum_count_partition => // gk /fs1 []; by [].
+move=> gk gin; have [g0 _] := fs1 gk gin.
+apply: lp_factor_count => // x.
+have := leq_sum_mem (fun gk => \mu_x (PR gk.1)) gin; rewrite fs2 => h.
+by apply: leq_trans h _; case: (root _ _).
+Qed.
+
+End CountFull.
